@@ -153,6 +153,15 @@ def _function_over_one_var(repr_func, raw_func, x, out=None, out_like=None, sizi
 
     return z 
 
+def _repr_val(x):
+    # value of an operand for the 'repr' (value based) calculation. The integer values of an unsigned object are numpy unsigned integers:
+    # they are handed over as signed (or python) integers, because a negative difference would wrap around in an unsigned type
+    val = x.get_val()
+    if isinstance(val, (np.ndarray, np.generic)) and val.dtype.kind == 'u':
+        val = np.asarray(val)
+        val = val.astype(np.int64) if val.size == 0 or int(np.max(val)) < 2**63 else val.astype(object)
+    return val
+
 def _function_over_two_vars(repr_func, raw_func, x, y, out=None, out_like=None, sizing='optimal', method='raw', optimal_size=None, **kwargs):
     if not isinstance(x, Fxp):
         x = Fxp(x)
@@ -186,7 +195,7 @@ def _function_over_two_vars(repr_func, raw_func, x, y, out=None, out_like=None, 
 
     if method == 'repr' or x.scaled or n_frac is None:
         raw = False
-        val = repr_func(x.get_val(), y.get_val(), **kwargs)
+        val = repr_func(_repr_val(x), _repr_val(y), **kwargs)
     elif method == 'raw':
         raw = True
         kwargs['n_frac'] = n_frac
